@@ -673,10 +673,14 @@ void mon_disconnect(const Run& run, const Ix&, Verdicts& v, vu::Result& res) {
             if (c.caps.maximum_packet_size && p.props.empty()) { ref::Packet full; full.type = ref::DISCONNECT; full.rc = d.disc_rc; full.props = d.props; return ref::encode(full).size() > *c.caps.maximum_packet_size; }
             return false;
         };
+        // an async_run issued after the call starts the next incarnation: its connections and traffic are not this disconnect's
+        uint64_t next_run = UINT64_MAX;
+        for (auto& o : h.ops) if (o.kind == OpKind::run && o.seq_init > s0) { next_run = o.seq_init; break; }
         bool sent_somewhere = false;
         for (auto& c : h.conns) {
             if (c.t_closed >= 0 && c.seq_closed < s0) continue;     // gone before the call
             if (c.seq_begin > s_done) continue;                     // after completion: judged below
+            if (c.seq_begin > next_run) continue;                   // opened by the next incarnation
             bool hostile = false;
             for (auto& b : h.bpkts) if (b.conn == c.id && (b.kind == BKind::hostile || !b.wellformed)) hostile = true;
             if (hostile) continue;
@@ -707,8 +711,7 @@ void mon_disconnect(const Run& run, const Ix&, Verdicts& v, vu::Result& res) {
         }
         // silence afterwards, until async_run is called again
         if (d.completions) {
-            uint64_t until = UINT64_MAX;
-            for (auto& o : h.ops) if (o.kind == OpKind::run && o.seq_init > s_done) { until = o.seq_init; break; }
+            uint64_t until = next_run;
             for (auto& e : h.ev) {
                 if (e.seq <= s_done || e.seq >= until) continue;
                 if (e.kind == Ev::write_begin || e.kind == Ev::connect_begin || e.kind == Ev::resolve_begin)
